@@ -686,8 +686,7 @@ class AckMonitor(Monitor):
         # opened (unknown connection ID, keys discarded or not yet installed, key-phase desync) owes nothing; one that
         # was opened and did not end the connection is owed its acknowledgement, whatever the connection's own
         # bookkeeping (ack_queue) says.
-        opened = self._opened_by(ep)
-        del _OPENED[:]
+        opened = self._opened_by(ep)  # (the list is cleared at the start of the next delivery: other monitors read it too)
         self._track_paths(ep, rec, from_addr, t, altered, opened)
         closing = ep.terminated or ep.conn._state.name in ("CLOSING", "DRAINING", "TERMINATED") or ep.conn._close_pending
         for key in list(self.pending_next):
@@ -913,11 +912,15 @@ class CloseMonitor(Monitor):
         self.last_rx = {}  # endpoint -> (t, pto)
         self.close_kinds = set()
         self.close_dgram_step = {}
+        self.idle_early_checks = 0
+        self.largest_opened = {}
+        self.last_rx_certain = {}
         self.api_close = {}  # endpoint -> (t, pto) of the application's close() call on a connection that was not closing
         self.api_close_deadline_checks = 0
 
     def on_deliver(self, ep, rec, from_addr, t, altered=False):
-        pass
+        AckMonitor._install_open_watch()
+        del _OPENED[:]
 
     def on_app(self, ep, op, t, outcome):
         # The application called close(); the driver lets the connection transmit at this very instant, which is when
@@ -939,6 +942,15 @@ class CloseMonitor(Monitor):
                 self.last_rx[ep.name] = (t, ref_pto(ep.conn))
             except Exception:
                 pass
+            # ... and the last packet that was *certainly* processed (opened by the endpoint's packet protection and
+            # carrying the highest number of its space so far, hence no duplicate): the idle period cannot have started
+            # earlier than that
+            opened = AckMonitor._opened_by(ep)
+            for v in authentic:
+                k = (ep.name, v.space)
+                if (v.space, v.pn) in opened and v.pn > self.largest_opened.get(k, -1):
+                    self.largest_opened[k] = v.pn
+                    self.last_rx_certain[ep.name] = t
         if ep.name not in self.t0 and ep.conn._state.name == "DRAINING":
             self.t0[ep.name] = (t, ref_pto(ep.conn), "draining")
             self.close_kinds.add("peer-close")
@@ -1006,8 +1018,23 @@ class CloseMonitor(Monitor):
                     remote = o.get("idle_" + ("server" if ep.name == "client" else "client"), 600.0)
                     # the peer's value is only known once its transport parameters were processed
                     idle = min(local, remote) if ep.handshake_complete else max(local, remote)
+                    # what the peer *advertised* (another stack may say 0 = "no idle timeout of mine", RFC 9000 10.1 / 18.2)
+                    other = "server" if ep.name == "client" else "client"
+                    adv = (o.get("advertise_" + other) or {}).get("max_idle_timeout")
+                    if adv is not None:
+                        remote = adv / 1000.0
+                        idle = local if remote == 0 else (min(local, remote) if ep.handshake_complete else max(local, remote))
                     deadline = lr[0] + max(idle, 3 * lr[1])
                     self.close_kinds.add("idle")
+                    # ... and not before an idle period of the negotiated length has passed since the last packet
+                    # (lower bound: the smaller of the non-zero advertised values; the restart rule for sent packets can
+                    # only move the deadline further out)
+                    lrc = self.last_rx_certain.get(ep.name)
+                    earliest = lrc + min(x for x in (local, remote) if x > 0) if (lrc is not None and any(x > 0 for x in (local, remote))) else None
+                    self.idle_early_checks += 1
+                    if earliest is not None and t < earliest - 1e-6:
+                        lr = (lrc, lr[1])
+                        raise Violation("close:idle-termination-early", "%s: last packet certainly processed at t=%.4f, idle timeouts advertised: own %.3f, peer %.3f (0 = none), terminated with 'Idle timeout' at t=%.4f, %.3f s after it" % (ep.name, lr[0], local, remote, t, t - lr[0]), None)
                     if t > deadline + 1e-6 + self._spin_slack(ep):
                         raise Violation("close:idle-termination-late", "%s: last authentic packet processed at t=%.4f, negotiated idle timeout %.3f (3*PTO=%.3f), terminated at t=%.4f" % (ep.name, lr[0], idle, 3 * lr[1], t), None)
         elif ep.name in self.term:
